@@ -332,6 +332,11 @@ func (w *Worker) runPath(fn *ssa.Function, args []interface{}, prefix []int64, o
 		}
 		call(i, nil, token.NoPos, fn, vargs)
 	}()
+	for k := range pc.viol {
+		if pc.viol[k].Stack == "" && pc.viol[k].Kind == "panic" {
+			pc.viol[k].Stack = strings.Join(i.panicTrace, " <- ")
+		}
+	}
 	if pc.nsym > 0 {
 		out.Stats.Nontrivial++
 	}
